@@ -44,6 +44,27 @@ def main():
                         di[e["name"]] = di.get(e["name"], False) or e.get("init") is not None
             inits[u][rf["name"]] = di
     m["__decl_init__"] = inits
+    # typedef spellings of record types, per unit: "struct _mod" -> "m_mod_t" (a later tree that spells the tag is read as the typedef)
+    types = {}
+    for u, d in facts.items():
+        tm = {}
+
+        def visit(n, tm=tm):
+            if isinstance(n, dict):
+                t, ct = n.get("t"), n.get("ct")
+                if isinstance(t, str) and isinstance(ct, str) and t != ct:
+                    tb = t.replace("const ", "").replace("*", "").strip()
+                    cb = ct.replace("const ", "").replace("*", "").strip()
+                    if cb.startswith("struct ") and tb and not tb.startswith("struct ") and " " not in tb and t.count("*") == ct.count("*"):
+                        tm.setdefault(cb, set()).add(tb)
+                for v in n.values():
+                    visit(v)
+            elif isinstance(n, list):
+                for v in n:
+                    visit(v)
+        visit(d["functions"])
+        types[u] = {k: sorted(v)[0] for k, v in tm.items() if len(v) == 1}
+    m["__types__"] = types
     with open(os.path.join(VERIF, "engine", "namemap.json"), "w") as fh:
         json.dump(m, fh, indent=0, sort_keys=True)
     print("namemap: %d functions" % sum(len(v) for k, v in m.items() if not k.startswith("__")))
